@@ -32,6 +32,14 @@ func walk(c *gsim.Cluster, sf *schedFile, rng *rand.Rand, emit func(*gsim.Step))
 		expired[n] = map[string]bool{}
 	}
 	membership := len(sf.Crash) > 0
+	// nodes that do not know each other yet: every node joins one earlier node over the stream, so that the
+	// others are first heard of through a third node (a delta or a digest naming a node not seen before)
+	joining := !sf.InitKnown && sf.Streams
+	if joining {
+		for i := 1; i < len(nodes); i++ {
+			emit(c.Join(nodes[i], nodes[rng.Intn(i)]))
+		}
+	}
 
 	write := func() {
 		n := pick(writers)
@@ -182,6 +190,9 @@ func walk(c *gsim.Cluster, sf *schedFile, rng *rand.Rand, emit func(*gsim.Step))
 			// whom the code's own periodic round addresses (the datagrams are dropped)
 			emit(c.GossipRound(pick(nodes)))
 		default:
+			if joining && rng.Intn(2) == 0 {
+				emit(c.Join(pick(nodes), pick(nodes)))
+			}
 			if membership && rng.Intn(3) == 0 {
 				n := pick(sf.Crash)
 				if !crashed[n] {
